@@ -1,14 +1,14 @@
 """C06 - termination, bounded work, no lost waiter.  DESIGN.md section 4 / C06."""
 import copy
 
-from .. import core, gen, simrun, trackersim
+from .. import core, gen, simrun, smallenum, trackersim
 from . import base
 
 ID = 'C06'
 LEVEL = 'exploration'
 PLAN = {
-    'quick': [('synth', 20000), ('resume', 4000), ('tracker', 160000)],
-    'thorough': [('synth', 800000), ('resume', 150000), ('tracker', 8000000)],
+    'quick': [('synth', 20000), ('resume', 4000), ('tracker', 160000), ('small_enum', smallenum.size(2) + 24000)],
+    'thorough': [('synth', 800000), ('resume', 150000), ('tracker', 8000000), ('small_enum', smallenum.size(3))],
 }
 DEADLINE = {'quick': 200, 'thorough': 3300}
 PROBES = ['line-reattempted', 'refusal-with-waiters-outstanding', 'tracker-interleaved-drain',
@@ -22,7 +22,9 @@ ASSUMPTIONS = [
 ]
 RULE = ('(a) generated form programs incl. cycles, self-references, unknown names, refusals and duplicate demands under '
         'seeded attempt orders; (b) interrupted-then-resumed sessions; (c) register/meet/drain histories (<=41 ops, <=4 '
-        'dependencies, <=5 waiters) on the real DependencyTracker in protocol and free mode. Non-trivial: (a) runs with >=1 '
+        'dependencies, <=5 waiters) on the real DependencyTracker in protocol and free mode; (d) bounded-exhaustive enumeration of '
+        'one-form programs with <=2 lines (always) and <=3 lines (thorough tier; a fixed stride in the quick tier) x line-name '
+        'permutations x user behaviours. Non-trivial: (a) runs with >=1 '
         'cycle/self-reference/refusal/unknown name or a re-attempted line, (b) resumed sessions that answered >=1 prompt '
         'before the refusal, (c) histories with a drain interleaved with a registration or a repeated meet; distinct = '
         'distinct (world, schedule) / history digests')
@@ -137,6 +139,11 @@ def eval_tracker(hist, acc=None):
 
 
 def evaluate(case, engine, acc=None):
+    if engine == 'small_enum':
+        fs = eval_synth(case, acc)
+        if acc is not None:
+            acc.count('fault:small-program-enumerated')
+        return fs
     if engine == 'tracker':
         return eval_tracker(case, acc)
     if engine == 'resume':
@@ -144,7 +151,18 @@ def evaluate(case, engine, acc=None):
     return eval_synth(case, acc)
 
 
+def enum_case(index, tier):
+    """quick: every program with <= 2 lines, plus a fixed stride through the 3-line programs; thorough: all of them"""
+    s2, s3 = smallenum.size(2), smallenum.size(3)
+    if tier == 'thorough' or index < s2:
+        return smallenum.case_at(index, 3)
+    stride = 37
+    return smallenum.case_at(s2 + ((index - s2) * stride + core.base_seed()) % (s3 - s2), 3)
+
+
 def make_case(engine, seed):
+    if engine == 'small_enum':
+        return enum_case(seed, make_case.tier)
     if engine == 'tracker':
         rng = core.Rng(seed)
         return trackersim.gen_history(rng, 'protocol' if rng.chance(0.5) else 'free')
@@ -159,7 +177,11 @@ def make_case(engine, seed):
     return gen.gen_case(seed)
 
 
+make_case.tier = 'quick'
+
+
 def run_one(engine, seed, acc, tier):
+    make_case.tier = tier
     case = make_case(engine, seed)
     for f in evaluate(case, engine, acc):
         acc.violation(base.violation(ID, f, case, seed, engine))
@@ -191,6 +213,8 @@ def coverage(accs, total):
         'real_vs_stub': base.REAL_VS_STUB,
         'distinct_attempt_traces': len(total.sets.get('traces', ())),
         'distinct_tracker_histories': len(total.sets.get('histories', ())),
+        'small_programs_enumerated': total.counters.get('fault:small-program-enumerated', 0),
+        'small_program_space': {'<=2 lines (always exhaustive)': smallenum.size(2), '<=3 lines (exhaustive in the thorough tier)': smallenum.size(3)},
     }
 
 
